@@ -98,8 +98,15 @@ func (f *simFile) mkVersion(t *Tape, kind string) simVersion {
 		case "valid":
 			if t.Bool(1, 3) {
 				n2 := name + "b"
+				// one such version in twenty is large: more than a mebibyte of comment
+				// between its first and its second class (a watcher that reads files
+				// through a size-limited reader would see a valid prefix)
+				pad := ""
+				if t.Bool(1, 20) {
+					pad = "// " + strings.Repeat("padding ", (1<<20)/8+[]int{0, 1, 700}[t.Choose(3)]) + "\n"
+				}
 				return simVersion{Kind: kind, Valid: true, Names: []string{stable, name, n2}, Serial: f.Serial,
-					Content: fmt.Sprintf("class %s implements Namespace {\n  related: {\n    r%d: %s[]\n  }\n}\nclass %s implements Namespace {\n  related: { m: %s[] }\n  permits = { p: (ctx: Context): boolean => this.related.m.includes(ctx.subject) }\n}\n", name, f.Serial, name, n2, name) + stableClass}
+					Content: fmt.Sprintf("class %s implements Namespace {\n  related: {\n    r%d: %s[]\n  }\n}\n%sclass %s implements Namespace {\n  related: { m: %s[] }\n  permits = { p: (ctx: Context): boolean => this.related.m.includes(ctx.subject) }\n}\n", name, f.Serial, name, pad, n2, name) + stableClass}
 			}
 			return simVersion{Kind: kind, Valid: true, Names: []string{stable, name}, Serial: f.Serial,
 				Content: fmt.Sprintf("class %s implements Namespace {\n  related: {\n    r%d: %s[]\n  }\n}\n", name, f.Serial, name) + stableClass}
